@@ -49,7 +49,7 @@ def main():
             res[name] = r
             print(name, json.dumps(r)[:300], flush=True)
     bad = sum(1 for v in res.values() if v.get("error") or (v.get("kind") == "breaking" and not v.get("caught"))
-              or (v.get("kind") in ("benign", "neutralised") and not v.get("ok")))
+              or (v.get("kind") in ("benign", "neutralised", "known-miss") and not v.get("ok")))
     finish(res, want, bad)
 
 
@@ -83,7 +83,14 @@ def one(name):
                 prop = re.match(r"(C\d\d)-", name).group(1)
                 rc, lines = run_check(prop, src, os.path.join(tmp, "out"))
                 rules = sorted(set(m.group(1) for l in lines for m in [re.search(r"rule=(\S+)", l)] if m))
-                neut = json.load(open(os.path.join(d, "meta.json"))).get("neutralised_by_fix")
+                meta_ = json.load(open(os.path.join(d, "meta.json")))
+                if meta_.get("known_miss"):
+                    # a change the checks are known not to catch (the configuration / flow it needs is not simulated:
+                    # DESIGN.md sections 9 and 14); reported as such, whatever the check says
+                    res[name] = {"kind": "known-miss", "property": prop, "exit": rc, "caught": rc == 1, "rules": rules[:6],
+                                 "ok": rc in (0, 1)}
+                    continue
+                neut = meta_.get("neutralised_by_fix")
                 if neut:
                     # a later "fix:" commit in /repo removed the weakness this change exploited: its demonstration
                     # passes on the current tree, so the check is expected to stay green (an alarm is not an error)
@@ -110,8 +117,10 @@ def finish(res, want, bad):
     with open(path, "w") as f:
         json.dump(res, f, indent=1, sort_keys=True)
     n_b = sum(1 for v in res.values() if v.get("kind") == "breaking")
-    print("breaking=%d caught=%d neutralised-by-fix=%d benign=%d green=%d bad=%d" % (
-        n_b, sum(1 for v in res.values() if v.get("caught")), sum(1 for v in res.values() if v.get("kind") == "neutralised"),
+    print("breaking=%d caught=%d known-miss=%d neutralised-by-fix=%d benign=%d green=%d bad=%d" % (
+        n_b, sum(1 for v in res.values() if v.get("caught") and v.get("kind") == "breaking"),
+        sum(1 for v in res.values() if v.get("kind") == "known-miss"),
+        sum(1 for v in res.values() if v.get("kind") == "neutralised"),
         sum(1 for v in res.values() if v.get("kind") == "benign"),
         sum(1 for v in res.values() if v.get("kind") == "benign" and v.get("ok")), bad))
     sys.exit(1 if bad else 0)
